@@ -760,6 +760,7 @@ func vxstub_os_File_Close(f *os.File) error {
 }
 
 func vxstub_os_File_ReadAt(f *os.File, b []byte, off int64) (int, error) {
+	defer vxLibWrite(b) // the file system fills the caller's buffer
 	fs := vxfs
 	h := fs.handle(f)
 	if h == nil {
@@ -796,6 +797,7 @@ func vxstub_os_File_ReadAt(f *os.File, b []byte, off int64) (int, error) {
 }
 
 func vxstub_os_File_WriteAt(f *os.File, b []byte, off int64) (int, error) {
+	vxLibRead(b) // the file system reads the caller's bytes
 	fs := vxfs
 	h := fs.handle(f)
 	if h == nil {
